@@ -224,6 +224,7 @@ def dvsStr (s : St) (vs : List (DistValidator SPK SSig)) : String :=
 def errStr : Err → String
   | .nomsg => "nomsg" | .nopk => "nopk" | .noshare => "noshare" | .badpartial => "badpartial"
   | .badagg => "badagg" | .noreg => "noreg" | .nodd => "nodd" | .badmulti => "badmulti" | .threshold => "threshold"
+  | .panic => "panic" | .timeout => "timeout"
 
 /-! ### the whole glue at node `j`, as `dkg.Run` chains it -/
 
@@ -236,34 +237,27 @@ structure Artifacts where
 def nodeRun (s : St) (j : Nat) : Except String Artifacts := do
   let C := symCrypto s.t
   let shares := sharesOf s (j + 1)
-  -- signAndAggDepositData
-  let mut dds : List (List (DepositData SPK SSig)) := []
-  for i in List.range s.amounts.length do
-    let tau := sigDepositData + i
-    let a := s.amounts[i]?.getD 0
-    match signDepositMsgs C shares (j + 1) (wds s) a, query (exchangeAt s {} j tau) tau s.nv with
-    | some (_, msgs), some data =>
-      match aggDepositData C data shares msgs with
-      | .ok dd => dds := dds ++ [dd]
-      | .error e => throw ("deposit:" ++ errStr e)
-    | _, _ => throw "deposit:exchange"
-  -- signAndAggValidatorRegistrations
-  let regs ← match signRegs C shares (j + 1) (fees s) gas, query (exchangeAt s {} j sigValidatorRegistration) sigValidatorRegistration s.nv with
-    | some (_, msgs), some data =>
-      match aggRegs C data shares msgs with
-      | .ok r => pure r
-      | .error e => throw ("reg:" ++ errStr e)
-    | _, _ => throw "reg:exchange"
-  -- signAndAggLockHash
-  let vals ← match createDistValidators shares dds regs with
-    | .ok v => pure (clearRegs s.pregen v)
-    | .error e => throw ("cdv:" ++ errStr e)
+  -- what the exchanges return at node j (exchanger model: own set, then every peer's)
+  let exchDep ← (List.range s.amounts.length).mapM fun i =>
+    match query (exchangeAt s {} j (sigDepositData + i)) (sigDepositData + i) s.nv with
+    | some d => pure d
+    | none => throw "deposit:exchange"
+  let exchReg ← match query (exchangeAt s {} j sigValidatorRegistration) sigValidatorRegistration s.nv with
+    | some d => pure d
+    | none => throw "reg:exchange"
+  -- signAndAggDepositData (kept for the deposit-data files), then the lock's validators
+  let dds ← match signAndAggDepositData C shares (j + 1) (wds s) s.amounts exchDep with
+    | .ok d => pure d
+    | .error e => throw ("deposit:" ++ errStr e)
+  let vals ← match lockValidators C shares (j + 1) (wds s) (fees s) gas s.amounts s.pregen exchDep exchReg with
+    | .ok v => pure v
+    | .error e => throw ("lock:" ++ errStr e)
   let agg ← match query (exchangeAt s {} j sigLock) sigLock s.nv with
     | some data =>
       match lockFromAgg C data shares .lock with
       | .ok σ => pure (σ == .multi (sortPairs ((List.range s.n).flatMap fun i => (List.range s.nv).map fun k => (i + 1, k))) .lock)
-      | .error e => throw ("lock:" ++ errStr e)
-    | none => throw "lock:exchange"
+      | .error e => throw ("lockhash:" ++ errStr e)
+    | none => throw "lockhash:exchange"
   return { vals := vals, agg := agg, ks := keystore shares, files := dds }
 
 def artStr (s : St) (j : Nat) : String :=
